@@ -197,6 +197,15 @@ func c15handler(c *Ctx) {
 		var chain []layer
 		cur := h
 		var cdesc []string
+		// JSON handlers: now and then a key or group name that holds a control character (TAB, LF, ESC, 0x01) and nothing
+		// else that needs escaping - JSON has a spelling for every key (the text formats keep identifier-like keys)
+		kx := func(base string) string {
+			if opt.JSON && r.P(10) {
+				c.R.Add("json_keys_with_a_control_character", 1)
+				return base + gen.Pick(r, []string{"\tx", "\nx", "\x1b[1m", "\x01", "\r", "\x7f\x00"})
+			}
+			return base
+		}
 		nDer := r.Intn(9) // chains up to 8 steps: slice growth of the derivation list happens at 1, 2, 4, 8
 		if r.P(30) {
 			nDer = 0
@@ -217,7 +226,7 @@ func c15handler(c *Ctx) {
 		}
 		for i := 0; i < nDer; i++ {
 			if r.P(40) {
-				g := fmt.Sprintf("grp%d", i)
+				g := kx(fmt.Sprintf("grp%d", i))
 				cur = cur.WithGroup(g)
 				chain = append(chain, layer{group: g})
 				cdesc = append(cdesc, "WithGroup("+g+")")
@@ -227,7 +236,7 @@ func c15handler(c *Ctx) {
 				var kvs []gen.KV
 				for j := 0; j < n; j++ {
 					kc++
-					key := fmt.Sprintf("d%d~", kc)
+					key := kx(fmt.Sprintf("d%d~", kc))
 					depth := 1
 					// now and then a key that an earlier WithAttrs at the same nesting level already used (scalars only):
 					// every key is printed once, the later one wins
@@ -277,7 +286,7 @@ func c15handler(c *Ctx) {
 		var recAttrs []stdslog.Attr
 		var recKVs []gen.KV
 		for j := 0; j < nrec; j++ {
-			key, depth := fmt.Sprintf("r%d~", j), 0
+			key, depth := kx(fmt.Sprintf("r%d~", j)), 0
 			// a record attribute under a key that the handler's own attributes (same level) already carry: the record's wins
 			if k := sameLevelScalarKeys(); len(k) > 0 && r.P(15) {
 				key, depth = gen.Pick(r, k), 3
